@@ -287,11 +287,13 @@ impl<'tcx> Cx<'tcx> {
                         ("f", s(format!("{}", f.as_usize()))),
                         ("i", J::N(f.as_usize() as i128)),
                         ("clo", s(self.fn_path(*cdid))),
+                        ("ty", s(self.tystr(fty))),
                     ]),
                     _ => J::O(vec![
                         ("f", s(format!("{}", f.as_usize()))),
                         ("i", J::N(f.as_usize() as i128)),
                         ("tup", J::B(true)),
+                        ("ty", s(self.tystr(fty))),
                     ]),
                 },
                 ProjectionElem::Index(l) => J::O(vec![("ix", J::N(l.as_usize() as i128))]),
